@@ -782,6 +782,9 @@ def writerPass (w : World) (si : Nat) : World :=
         else w
       else w
 
+/-- `if (!timeout.tv_sec || timeout.tv_sec > x) timeout.tv_sec = x;` -/
+def capWait (timeout x : Nat) : Nat := if timeout = 0 ∨ timeout > x then x else timeout
+
 /-- what the thread does at the top of the loop before it would wait: returns the wait bound -/
 def writerWaitBound (w : World) (si : Nat) : World × Nat :=
   match getSrv w si with
@@ -793,9 +796,8 @@ def writerWaitBound (w : World) (si : Nat) : World × Nat :=
       if s.ss ≠ ssOff then
         let secs0 := if s.lastrcv > s.laststatsrv then s.lastrcv else s.laststatsrv
         let secs := if w.now - secs0 > statusServerPeriod then w.now else secs0
-        if s.timeout = 0 ∨ s.timeout > secs + statusServerPeriod + rnd then secs + statusServerPeriod + rnd else s.timeout
-      else
-        if s.timeout = 0 ∨ s.timeout > w.now + statusServerPeriod + rnd then w.now + statusServerPeriod + rnd else s.timeout
+        capWait s.timeout (secs + statusServerPeriod + rnd)
+      else capWait s.timeout (w.now + statusServerPeriod + rnd)
     (updSrv w si fun s => { s with timeout := t }, t)
 
 /-- one scheduling of the clientwr thread: it was parked in the timed wait; it runs
